@@ -158,6 +158,7 @@ bool Env::parallel(const ParallelOpts& o) {
     if (o.stage != onlyStage) return true;
     Ctx ctx; ctx.index = onlyIndex; ctx.verbose = true;
     if (onlyIndex >= o.size) { std::cerr << "index out of range for stage " << o.stage << "\n"; exit(3); }
+    if (onlyWithPrefix) { Ctx pre; for (uint64_t i = (onlyIndex / o.block) * o.block; i < onlyIndex; i++) { pre.index = i; o.run(i, pre); } }
     o.run(onlyIndex, ctx);
     for (auto& kv : ctx.counters_) counters[kv.first] += kv.second;
     for (auto& v : ctx.viols_) { Viol x = v; x.stage = o.stage; addViol(x); violCount[x.subcheck + "|" + x.cls + "|" + x.feats]++; }
@@ -253,6 +254,7 @@ bool Env::parallel(const ParallelOpts& o) {
     }
   }
   if (!cappedList.empty()) { std::string j = "["; for (size_t i = 0; i < cappedList.size(); i++) j += (i ? "," : "") + std::string("\"") + jsonEscape(cappedList[i]) + "\""; info[o.stage + ".capped_examples"] = j + "]"; }
+  if (samples.empty() && o.describe && o.size) samples.push_back(o.describe(o.size / 2));   // every stage shows at least one of the cases it explored
   for (auto& v : crashViols) { addViol(v); violCount[v.subcheck + "|" + v.cls + "|" + v.feats]++; }
   std::string rm = "rm -rf '" + dir + "'"; if (system(rm.c_str())) {}
   munmap((void*)sh, sizeof(Shared));
